@@ -32,6 +32,7 @@ import ast
 import builtins
 import math
 import sys
+import types
 
 from pyvc.core import And, ExcVal, Iff, Implies, Not, Or, Outcome, PyRaise, SStr, Unreached
 from pyvc.harness import harness, stubclass
@@ -224,8 +225,8 @@ def _mediatypes_setup(reg, ex):
 # _MediaRange.match_score == the documented specificity score
 
 PKEYS = ('charset', 'version', 'profile')
-# parameter-name sets with at most two names out of three
-PSETS = [(), ('charset',), ('version',), ('profile',), ('charset', 'version'), ('charset', 'profile'), ('version', 'profile')]
+# every subset of three parameter names, on each side independently (64 shapes; three shared names included)
+PSETS = [(), ('charset',), ('version',), ('profile',), ('charset', 'version'), ('charset', 'profile'), ('version', 'profile'), ('charset', 'version', 'profile')]
 
 
 def _params(v, side, names):
@@ -539,8 +540,9 @@ def _best_match_n(n):
             return r
 
         qstub = Opaque(v, quality)
-        as_tuple = bool(v.choose(2, 'candidates-as-tuple'))
-        arg = tuple(cands) if as_tuple else list(cands)
+        # "media_types: An iterable over one or more Internet media types": a list, a tuple, or an iterator that can be consumed only once
+        shape = v.choose(3, 'candidates-given-as')
+        arg = [list(cands), tuple(cands), iter(list(cands))][shape]
         with patched(v, MT_MOD, 'quality', qstub):
             out = v.call(arg, header)
 
@@ -881,7 +883,7 @@ def _handlers_setup(reg, ex):
     def new_obj(interp, obj):
         g = interp.ctx.ghost.get('c11')
         cls = obj._cls
-        if g is not None and isinstance(cls, type) and cls.__module__ == H_MOD and cls.__name__ == 'Handlers':
+        if g is not None and isinstance(cls, type) and any(c.__module__ == H_MOD and c.__name__ == 'Handlers' for c in cls.__mro__):
             watch(g, obj)
             g.keep.append(obj)
 
@@ -895,10 +897,12 @@ class Handler:
     def __pyvc_truth__(self):
         return True  # an ordinary object (no __bool__/__len__): always true, as for the real class
 
-    def __init__(self, name, sync=False):
+    def __init__(self, name, sync=False, ser=None, de=None):
         self.name = name
-        if sync:
+        # the two synchronous fast paths are independent attributes (a handler may offer either, both or none)
+        if sync if ser is None else ser:
             self._serialize_sync = Handler(name + '.serialize-sync')
+        if sync if de is None else de:
             self._deserialize_sync = Handler(name + '.deserialize-sync')
 
     def __repr__(self):
@@ -914,14 +918,24 @@ def ghost_of(v):
     return g
 
 
-def mk_handlers(v, g, entries, cached=None):
+def _app_subclass(base):
+    """An application-defined subclass of Handlers that adds nothing (lives in the package's module so that it is interpreted)."""
+    return type('TenantHandlers', (base,), {'__module__': base.__module__})
+
+
+def mk_handlers(v, g, entries, cached=None, subclass=False):
     """A Handlers object in an arbitrary coherent state: cache_epoch == data_epoch == e0, resolver its own."""
     if v.concrete:
         cls = watched_class(v, g)
+        if subclass:
+            cls = _app_subclass(cls)
         h = cls.__new__(cls)
         object.__setattr__(h, 'data', GDict(g, h, entries))
     else:
         h = watch(g, v.obj(HANDLERS))
+        if subclass:
+            h.__dict__['_cls'] = _app_subclass(h.__dict__['_cls'])
+            g.keep.append(h.__dict__['_cls'])
         dict.__setitem__(h.__dict__['_fields'], 'data', GDict(g, h, entries))
     e0 = v.int('epoch0', 0)
     g.set_epoch(h, e0)
@@ -1054,17 +1068,24 @@ def handlers_init(v):
     touch(v, HANDLERS + '.__setitem__')
     touch(v, HANDLERS + '._create_resolver')
     g = ghost_of(v)
-    k = v.choose(4, 'initial')  # None, {}, one entry, two entries
-    initial = None if k == 0 else dict(_entries(v, k - 1))
+    # None, {}, a dict of one / two entries; "initial: Optional[Mapping]": a read-only Mapping that is not a dict, holding
+    # two entries (4) or none (5: falsy like {}, so the defaults apply)
+    k = v.choose(6, 'initial')
+    if k <= 3:
+        initial = None if k == 0 else dict(_entries(v, k - 1))
+        given = initial
+    else:
+        given = dict(_entries(v, 2 if k == 4 else 0))
+        initial = types.MappingProxyType(given)
     out = _construct(v, g, initial)
     v.check('no-exception', out.exc is None)
     if out.exc is not None:
         return
     h = out.value
     data = v.get(h, 'data')
-    if k >= 2:
-        v.check('holds-exactly-the-given-handlers', same_items(data, initial))
-        v.check('does-not-alias-the-given-mapping', data is not initial)
+    if k in (2, 3, 4):
+        v.check('holds-exactly-the-given-handlers', same_items(data, given))
+        v.check('does-not-alias-the-given-mapping', data is not initial and data is not given)
         v.cover('given')
     else:
         v.check('defaults-are-json-multipart-urlencoded',
@@ -1088,7 +1109,10 @@ def handlers_copy(v):
         touch(v, HANDLERS + fn)
     g = ghost_of(v)
     entries = _entries(v)
-    h, lru, e0 = mk_handlers(v, g, entries)
+    # "In the unlikely case we are dealing with a subclass, return the matching type": the object is a Handlers or an
+    # instance of an application subclass that adds nothing
+    sub = bool(v.choose(2, 'subclass?'))
+    h, lru, e0 = mk_handlers(v, g, entries, subclass=sub)
     out = _copy(v, g, h)
     v.check('no-exception', out.exc is None)
     if out.exc is not None:
@@ -1344,7 +1368,6 @@ def _make_resolver(v, g, h):
     return v.call(h, target=HANDLERS + '._create_resolver')
 
 
-@harness(PROP, HANDLERS + '._create_resolver', name='resolve', setup=_handlers_setup)
 def handlers_resolve(v):
     touch(v, H_MOD + ':_best_match')
     H415 = v.real('falcon.errors:HTTPUnsupportedMediaType')
@@ -1358,7 +1381,7 @@ def handlers_resolve(v):
     resolver = made.value
     # the mapping is filled only now: the resolver must read the mapping as it is when asked, not as it was when built
     n = v.choose(3, 'entries')
-    entries = [(KEYS[i], Handler('handler%d' % i, sync=bool(v.choose(2, 'sync-fast-path%d' % i)))) for i in range(n)]
+    entries = [(KEYS[i], Handler('handler%d' % i, ser=bool(v.choose(2, 'serialize-sync%d' % i)), de=bool(v.choose(2, 'deserialize-sync%d' % i)))) for i in range(n)]
     data = v.get(h, 'data')
     for k, hd in entries:
         data[k] = hd
@@ -1416,6 +1439,11 @@ def handlers_resolve(v):
     v.check('resolving-does-not-touch-the-resolver-or-clear-its-cache', v.get(h, '_resolve') is lru0 and not g.clears)
 
 
+# one variant per mapping size (all of 0..2 entries are covered; the split only spreads the paths over the cores)
+for _n in (0, 1, 2):
+    harness(PROP, HANDLERS + '._create_resolver', name='resolve[entries=%d]' % _n, setup=_handlers_setup, fix={'entries': _n})(handlers_resolve)
+
+
 @harness(PROP, H_MOD + ':_best_match', setup=_handlers_setup)
 def handlers_best_match(v):
     media_type = v.str('media_type')
@@ -1456,11 +1484,22 @@ def history_never_stale(v):
         return
     h = made.value
     bm = BestMatchContract(v, fixed='')  # nothing but an exact key matches in this history
-    ask = (K0, 'application/octet-stream', False)
+    H415 = v.real('falcon.errors:HTTPUnsupportedMediaType')
+    # the resolution that is repeated along the history: by exact type, by a missing type that falls back to the default,
+    # or with raise_not_found left at its default (a type that is no longer designated is then a 415, which is never memoised)
+    ask_kind = v.choose(3, 'resolution')
+    ask = [(K0, 'application/octet-stream', False), (None, K0, False), (K0, 'application/octet-stream')][ask_kind]
 
     def resolve(o):
         r = v.get(o, '_resolve')
         return run_fn(v, r, *ask)
+
+    def designates(r, cur):
+        if cur is not None:
+            return r.exc is None and r.value[0] is cur
+        if ask_kind == 2:
+            return r.exc is not None and r.exc.isa(H415)
+        return r.exc is None and r.value[0] is None
 
     with patched(v, MT_MOD, 'best_match', bm):
         r1 = resolve(h)
@@ -1486,7 +1525,7 @@ def history_never_stale(v):
         elif op == 'setdefault-after-delete':
             o = method(v, h, '__delitem__', K0)
             r_mid = resolve(h)
-            v.check('after-delete-nothing-is-designated', r_mid.exc is None and r_mid.value[0] is None)
+            v.check('after-delete-nothing-is-designated', designates(r_mid, None))
             o = method(v, h, 'setdefault', K0, N) if o.exc is None else o
         else:
             o = _copy(v, g, h)
@@ -1499,7 +1538,7 @@ def history_never_stale(v):
         r2 = resolve(target)
         cur = v.get(target, 'data').get(K0)
         # "returns the handler that the current mapping designates ... never a stale handler"
-        v.check('never-a-stale-handler', r2.exc is None and r2.value[0] is cur)
+        v.check('never-a-stale-handler', designates(r2, cur))
         if target is not h:
             r3 = resolve(h)
             v.check('customising-the-copy-does-not-affect-the-original', r3.exc is None and r3.value[0] is A and same_items(v.get(h, 'data'), {K0: A, K1: B}))
@@ -1511,24 +1550,46 @@ def history_never_stale(v):
 # Request.client_accepts / client_prefers
 
 
-def _accept_env(v):
+AREQ = 'falcon.asgi.request:Request'
+
+
+@stubclass
+class _HeaderBytes:
+    """A raw ASGI header value: bytes whose latin-1 decoding (total, one character per byte) is the given text."""
+
+    def __init__(self, text):
+        self.text = text
+
+    def decode(self, encoding='utf-8', errors='strict'):
+        if not isinstance(encoding, str) or encoding.lower().replace('-', '').replace('_', '') not in ('latin1', 'iso88591'):
+            raise Unreached('ASGI header bytes decoded as %r' % (encoding,))
+        return self.text
+
+
+def _accept_request(v):
+    """A WSGI or an ASGI request (the ASGI class overrides the `accept` property that both methods read) whose Accept
+    header is missing, empty, or an arbitrary non-empty string -> (request, header text or None)."""
+    asgi = v.choose(2, 'asgi-request?')
     k = v.choose(3, 'accept-header')  # missing, empty, present
     if k == 0:
-        return {}, None
-    if k == 1:
-        return {'HTTP_ACCEPT': ''}, ''
-    a = v.str('accept')
-    v.assume(a != '')
-    return {'HTTP_ACCEPT': a}, a
+        a = None
+    elif k == 1:
+        a = ''
+    else:
+        a = v.str('accept')
+        v.assume(a != '')
+    if asgi:
+        return v.obj(AREQ, _asgi_headers=({} if a is None else {b'accept': _HeaderBytes(a)})), a
+    return v.obj(REQ, env=({} if a is None else {'HTTP_ACCEPT': a})), a
 
 
-@harness(PROP, REQ + '.client_accepts', inline=[REQ + '.accept'], setup=_mediatypes_setup)
+@harness(PROP, REQ + '.client_accepts', inline=[REQ + '.accept', AREQ + '.accept'], setup=_mediatypes_setup)
 def client_accepts(v):
     touch(v, REQ + '.accept')
+    touch(v, AREQ + '.accept')
     InvalidMediaType = v.real('falcon.errors:InvalidMediaType')
     InvalidMediaRange = v.real('falcon.errors:InvalidMediaRange')
-    env, accept = _accept_env(v)
-    req = v.obj(REQ, env=env)
+    req, accept = _accept_request(v)
     media_type = v.str('media_type')
     k = v.choose(3, 'quality-outcome')
     q = mkq(v, 'q') if k == 0 else None
@@ -1565,12 +1626,12 @@ def client_accepts(v):
         v.cover('by-quality')
 
 
-@harness(PROP, REQ + '.client_prefers', inline=[REQ + '.accept'], setup=_mediatypes_setup)
+@harness(PROP, REQ + '.client_prefers', inline=[REQ + '.accept', AREQ + '.accept'], setup=_mediatypes_setup)
 def client_prefers(v):
     touch(v, REQ + '.accept')
+    touch(v, AREQ + '.accept')
     InvalidMediaType = v.real('falcon.errors:InvalidMediaType')
-    env, accept = _accept_env(v)
-    req = v.obj(REQ, env=env)
+    req, accept = _accept_request(v)
     cands = list(CANDS[: 1 + v.choose(3, 'candidates')])
     bm = BestMatchContract(v)
     with patched(v, MT_MOD, 'best_match', bm):
@@ -1794,7 +1855,7 @@ KILLS = [
      "        self._resolve.cache_clear()  # type: ignore[attr-defined]\n",
      "        self._resolve.cache_clear()\n        super().__delitem__(key)\n", 'Handlers.pop#cache-epoch-equals-data-epoch'),
     # the copy shares the original's resolver (and its cache)
-    ('falcon/media/handlers.py', "        return handlers_cls(self.data)\n", "        other = handlers_cls(self.data)\n        other._resolve = self._resolve\n        return other\n",
+    ('falcon/media/handlers.py', "        handlers = handlers_cls(self.data)\n", "        handlers = handlers_cls(self.data)\n        handlers._resolve = self._resolve\n",
      'Handlers.copy#copy-has-its-own-resolver'),
     # */* no longer falls back to the default type
     ('falcon/media/handlers.py', "            if media_type == '*/*' or not media_type:\n", "            if not media_type:\n",
@@ -1808,6 +1869,31 @@ KILLS = [
     ('falcon/request.py', "            return mediatypes.quality(media_type, accept) != 0.0\n        except ValueError:\n            return False\n",
      "            return mediatypes.quality(media_type, accept) != 0.0\n        except ValueError:\n            return True\n",
      'Request.client_accepts#malformed-header-or-type-means-not-accepted'),
+    # --- inputs that used to be fixed in the harnesses (audit of constants: each bug needs the newly covered value) ---
+    # three shared parameter names (parameter sets stopped at two names)
+    ('falcon/util/mediatypes.py', "        return (main_matches, sub_matches, exact_match, len(matching), self.quality)\n",
+     "        return (main_matches, sub_matches, exact_match, min(len(matching), 2), self.quality)\n", '_MediaRange.match_score#component-4-number-of-matching-parameters'),
+    # candidates given as a one-shot iterator (only list / tuple were tried): a two-pass rewrite finds nothing on the second pass
+    ('falcon/util/mediatypes.py', "            ((media_type, quality(media_type, header)) for media_type in media_types),\n",
+     "            zip(media_types, [quality(media_type, header) for media_type in media_types]),\n", 'mediatypes:best_match#empty-string-iff-no-candidate-has-positive-quality'),
+    # Handlers(initial) with a Mapping that is not a dict
+    ('falcon/media/handlers.py', "        handlers: Mapping[str, BaseHandler] = initial or {\n", "        handlers: Mapping[str, BaseHandler] = (isinstance(initial, dict) and initial) or {\n",
+     'Handlers.__init__#holds-exactly-the-given-handlers'),
+    # copy() of an instance of a subclass
+    ('falcon/media/handlers.py', "        handlers_cls = type(self)\n", "        handlers_cls = Handlers\n", 'Handlers.copy#copy-is-a-distinct-object-of-the-same-type'),
+    # a handler that offers only one of the two synchronous fast paths (they were always given together)
+    ('falcon/media/handlers.py', "                getattr(handler, '_deserialize_sync', None),\n",
+     "                getattr(handler, '_deserialize_sync', None) if hasattr(handler, '_serialize_sync') else None,\n", 'Handlers._create_resolver#returns-handler-with-its-sync-fast-paths'),
+    # the resolution repeated along a history was always by exact type: a memo of the default fallback that no mapping change resets
+    ('falcon/media/handlers.py',
+     "            media_type: Optional[str], default: str, raise_not_found: bool = True\n        ) -> Union[Tuple[None, None, None], _ResolverMethodReturnTuple]:\n"
+     "            if media_type == '*/*' or not media_type:\n",
+     "            media_type: Optional[str], default: str, raise_not_found: bool = True, _fallbacks: list = []\n        ) -> Union[Tuple[None, None, None], _ResolverMethodReturnTuple]:\n"
+     "            if media_type is None:\n                if not _fallbacks:\n                    _fallbacks.append(resolve(default, default, raise_not_found))\n                return _fallbacks[0]\n"
+     "            if media_type == '*/*' or not media_type:\n", 'Handlers.__init__#never-a-stale-handler'),
+    # the ASGI request class (its own `accept` property) was "by reading"
+    ('falcon/asgi/request.py', "            return self._asgi_headers[b'accept'].decode('latin1') or '*/*'\n", "            return self._asgi_headers[b'accept'].decode('latin1')\n",
+     'Request.client_accepts#missing-or-empty-accept-header-accepts-everything'),
 ]
 HARMLESS = [
     ('falcon/util/mediatypes.py',
@@ -1815,7 +1901,7 @@ HARMLESS = [
      "        return (main_matches, sub_matches, exact_match, len(matching), self.quality)\n",
      "        shared = mt_pnames & mr_pnames\n        for name in shared:\n            if media_type.params[name] != self.params[name]:\n                return self._NOT_MATCHING\n\n"
      "        return (main_matches, sub_matches, exact_match, len(shared), self.quality)\n"),
-    ('falcon/media/handlers.py', "        handlers_cls = type(self)\n        return handlers_cls(self.data)\n", "        return type(self)(self.data)\n"),
+    ('falcon/media/handlers.py', "        handlers_cls = type(self)\n        handlers = handlers_cls(self.data)\n", "        handlers = type(self)(self.data)\n"),
     ('falcon/util/mediatypes.py', "        if best_quality > 0.0:\n            return matching\n", "        if not best_quality <= 0.0:\n            return matching\n"),
 ]
 
